@@ -11,7 +11,8 @@ desc    cursor.description names (ids), `-` or `,`-separated
 adapt   `N` (metadata used as built) or the keys of `invoked_statement._all_selected_columns`
         when `_adapt_to_context` ran (`-` = none)
 probes  keys to look up, `-` or `,`-separated
-answer  `K<keys .-separated>;<one of F<i> | A | M per probe, `,`-separated>` or `dup-error`
+answer  `K<keys .-separated>;<one of F<i> | A | M per probe, `,`-separated>[;<the same answers read
+        off the ordered-dict construction, when not adapted>]` or `dup-error`
 -/
 namespace SaVerif.Drv.RowKeys
 open SaVerif.Drv SaVerif.RowKeys
@@ -52,7 +53,15 @@ def handle : List String → String
           ",".intercalate (ps.map (fun k => showLook
             (match ad with
              | none => lookup raw rs.length k
-             | some cols => lookupAdapted raw rs.length cols k)))
+             | some cols => lookupAdapted raw rs.length cols k))) ++
+          -- the ordered-dict construction must agree with the declarative `lookup`
+          (match ad with
+           | none => ";" ++ ",".intercalate (ps.map (fun k => showLook
+               (match (orderedKeymap raw rs.length).find? (fun e => e.1 == k) with
+                | some (_, some r) => .found r.idx
+                | some (_, none) => .ambiguous
+                | none => .missing)))
+           | some _ => "")
     | _, _, _, _, _ => "bad-op"
   | _ => "bad-op"
 
